@@ -306,3 +306,9 @@ Proof. induction X as [|x X IH]; intros Y s H; [reflexivity|]. destruct Y as [|y
 Lemma enumerate_combine {A B} (d : B) (X : list A) (Y : list B) : (length X <= length Y)%nat ->
   enumerate (combine X Y) = map (fun p => (fst p, (snd p, nth (fst p) Y d))) (enumerate X).
 Proof. intros H. unfold enumerate. rewrite (enumerate_combine_from d X Y O H). apply map_ext. intros [i a]. cbn [fst snd]. now rewrite Nat.sub_0_r. Qed.
+
+(* ------------------------------------------------------------------ Experiment.calc_prob_dist: appendleft reverses; the rank guard *)
+Lemma fold_left_cons_rev {A C} (g : C -> A) : forall (l : list C) (acc : list A), fold_left (fun acc c => g c :: acc) l acc = rev (map g l) ++ acc.
+Proof. induction l as [|c l IH]; intros acc; cbn [fold_left map rev]; [reflexivity|]. rewrite IH, <- app_assoc. reflexivity. Qed.
+Lemma shape1_of_nat (F : OF) (A : list (list F)) : shape1 F A = Z.of_nat (row_width F A).
+Proof. destruct A as [|r A]; reflexivity. Qed.
